@@ -27,7 +27,7 @@ COUNTS = [0.0, 1.0, -1.0, 2.0, -2.0, 3.0, 1e9, -1e9, float(2 ** 40), float(2 ** 
           2.5, -3.5, 7.5, float(2 ** 51) + 0.5]
 FRACS = [0.0, 0.5, -0.5, 0.25, 0.1, -0.3, 2.0 ** -30, 0.49999999999999994, 1e-300, 5e-324, 0.75, 7.3, -1e-16, 1e-16, -1e-20,
          -(2.0 ** -60), -0.2]
-FACTORS = [1, -1, 2, 0.5, 3, 1 / 3, 7.3, -2.5, 1e6, 1e-6, 1e15, 2.0 ** -40, 15, 25, 35, 45]
+FACTORS = [1, -1, 2, 0.5, 3, 1 / 3, 7.3, -2.5, 1e6, 1e-6, 1e15, 2.0 ** -40, 15, 25, 35, 45, 0.9999999999999999, 1.0000000000000002]
 ADDENDS = [(0.0, 0.0), (1.0, 0.25), (-2.0, 0.5), (3.0, -0.5), (1e9, 0.1), (float(2 ** 40), -0.3), (0.0, 2.0 ** -30),
            (0.0, 1e-16), (0.0, -1e-16), (7.0, 0.49999999999999994), (123456789012.0, 0.75), (0.0, 1e-300)]
 DIVISORS = [1.0, 0.5, 0.3, 7.0, 1e3, 2.5]
@@ -127,6 +127,12 @@ def factor_objects(k):
         yield "np.int64", np.int64(k), [fk], ()
     if float(np.float32(k)) == float(k):
         yield "np.float32", np.float32(k), [fk], ()
+    if float(np.float16(k)) == float(k):
+        yield "np.float16", np.float16(k), [fk], ()
+        yield "float16 array", np.array([k, 1.0], dtype=np.float16), [fk, F(1)], (2,)
+    if float(k).is_integer() and abs(k) < 100:
+        yield "np.int8", np.int8(k), [fk], ()
+        yield "np.uint8 array", np.array([abs(int(k)), 1], dtype=np.uint8), [F(abs(int(k))), F(1)], (2,)
     yield "0-d array", np.array(float(k)), [fk], ()
     yield "1-d array", np.array([float(k), 1.0, float(k)]), [fk, F(1), fk], (3,)
     yield "2-d array", np.array([[float(k), 2.0], [1.0, float(k)]]), [fk, F(2), F(1), fk], (2, 2)
@@ -428,10 +434,51 @@ def divisor_objects(d):
     ph = Phase(d)
     yield "Phase", ph, F(float(ph.cycle.value))
     yield "degree Quantity", (d * 360.0) * u.deg, F(float(((d * 360.0) * u.deg).to_value(u.cycle)))
+    # Phase divisors whose value does not fit one double (count + fraction): the exact two-part value is the divisor
+    for cnt in (1000000.0, float(2 ** 40 + 1)):
+        ph2 = Phase(cnt, d / 8 if abs(d / 8) <= 0.5 else 0.3)
+        yield "Phase (two doubles)", ph2, exact(ph2)[0]
+
+
+def phase_divisor_multiples(case, res):
+    """(k d + r) // d, % d for Phase divisors d that need both doubles: k and r are recovered exactly."""
+    for cnt, fr in ((1000000.0, 0.3), (float(2 ** 40 + 1), 0.3), (7.0, 1e-17), (123456789.0, -0.4999)):
+        d = Phase(cnt, fr)
+        dv = exact(d)[0]
+        for k in (1, 2, 3, 7, 100):
+            for r_ in (0.0, 0.25, 1e-9):
+                pk = d * k + r_
+                pv = exact(pk)[0]
+                if abs(pv) > LIM:
+                    continue
+                fl = math.floor(pv / dv)
+                rem = pv - fl * dv
+                near = rem <= TOL * max(1, k) or dv - rem <= TOL * max(1, k)
+                sub = {"d": [cnt, repr(fr)], "k": k, "r": r_}
+                res.state(("phase-divisor", cnt, fr, k, r_))
+                try:
+                    qq, rr = divmod(pk, d)
+                    q1, r1 = pk // d, pk % d
+                except Exception as e:
+                    res.violation("divmod|Phase (two doubles)|raised", f"{type(e).__name__}: {e} [{sub}]", case, sub)
+                    continue
+                res.transitions += 3
+                for nm, q_, r2 in (("divmod", qq, rr), ("// and %", q1, r1)):
+                    qv = float(u.Quantity(q_).to_value(u.dimensionless_unscaled))
+                    ok_q = int(qv) in ({fl} | ({fl - 1, fl + 1} if near else set()))
+                    rv = exact(r2)[0] if type(r2) is Phase else None
+                    if not ok_q or rv is None or abs(int(qv) * dv + rv - pv) > TOL * max(1, abs(int(qv))) or not (-TOL * k <= rv <= dv + TOL * k):
+                        res.violation("divmod|Phase (two doubles)|multiple of the divisor", f"({k} d + {r_}) {nm} d with d = ({cnt!r}, {fr!r}): "
+                                      f"quotient {qv!r}, remainder {r2!r}; exact quotient {fl}, remainder {float(rem)!r}", case, sub)
+                        break
+                else:
+                    res.hits["Phase divisor needing two doubles"] += 1
 
 
 def divmod_case(case, res):
     n = COUNTS[case["ci"]]
+    if case["ci"] == 0:
+        phase_divisor_multiples(case, res)
     for f in FRACS:
         p = mk(n, f)
         pv = exact(p)[0]
@@ -658,7 +705,7 @@ def construct_kinds_case(case, res):
     # convention, not a precondition)
     pairs = list(itertools.product([3.0, -2.0, 1e9, 2.5], [0.25, -0.3, 7.3, -1e-16]))
     pairs += [(f_, n_) for n_, f_ in pairs] + [(0.3, float(2 ** 40)), (-0.7, float(2 ** 51 + 1)), (0.1, 1e15), (1e-9, -float(2 ** 45)),
-                                                 (float(2 ** 40), 0.3), (0.25, 0.75), (1e-20, 1.0)]
+                                                 (float(2 ** 40), 0.3), (0.25, 0.75), (1e-20, 1.0), (-0.5000000000000001, 5.4e-17), (0.5000000000000001, -5.4e-17), (0.49999999999999994, 0.0)]
     for n, f in pairs:
         w = F(n) + F(f)
         if abs(n) < abs(f):
@@ -696,7 +743,7 @@ def main(argv=None):
         required_hits=["exact +-1/2 fraction", "imaginary phase", "factor kinds", "imaginary factor", "same factor array used twice", "in-place real<->imaginary transitions", "addend kinds",
                        "unit-mismatched addend rejected", "out= forms", "Phase divisor", "in-place remainder",
                        "remainder within 2^-52 of 0 or d (either neighbour accepted)", "whole grid as one array",
-                       "trig/exp on fractional part", "construction kinds", "smaller number given first"],
+                       "trig/exp on fractional part", "construction kinds", "smaller number given first", "Phase divisor needing two doubles"],
         assumptions=["operand values are read back exactly (Fractions of the stored doubles); results beyond 2^52 cycles are outside "
                      "the property", "plain-number divisors of // % divmod are refused by astropy (unit error) and left open",
                      "list * Phase (Python sequence repetition) is not arithmetic"],
